@@ -114,6 +114,10 @@ class HashedIterable(Generic[T]):
         """
         yield from self.values.values()
         for v in self.iterable:
+            if v.id_ in self.values:
+                # already yielded from the memoised values (an object listed twice in the source); later iterations
+                # will see it once, so the first one must as well.
+                continue
             self.values[v.id_] = v
             yield v
 
